@@ -5,58 +5,7 @@ use super::rt;
 use std::cell::RefCell;
 use std::collections::HashMap;
 
-#[derive(Clone, Debug)]
-pub struct Event {
-    pub kind: &'static str,
-    pub text: String,
-    pub data: Vec<i64>,
-    pub task: usize,
-    pub seq: u64,
-}
-
-#[derive(Clone, Copy, Debug)]
-pub struct WorldCfg {
-    /// `parking_lot::RwLock` look-alike: readers queue behind a waiting writer (parking_lot's policy)
-    /// instead of the plain "no writer holds it" rule. Only matters for blocking / deadlocks.
-    pub fair_rwlocks: bool,
-    /// Atomics created while the cache is being constructed (`is_shutting_down`, `keep_running`)
-    /// are scheduling points only if the scenario can write them (i.e. contains `shutdown`).
-    pub lifecycle_atomics_are_points: bool,
-    /// The id generator's atomic is a scheduling point (default on: one extra point per queued put).
-    pub id_atomics_are_points: bool,
-    /// The ten statistics counters are scheduling points (default off: they order nothing else; on in the
-    /// scenarios that check the counters after concurrent operations).
-    pub stats_atomics_are_points: bool,
-    /// The harness clock is a scheduling point (set when something advances it inside the window).
-    pub clock_is_point: bool,
-    /// `Pool::add` buffer index: explorer data choice (true) or always 0.
-    pub pool_index_is_choice: bool,
-    /// `DashMap::iter` order of each shard: explorer data choice (true) or insertion order.
-    pub iter_order_is_choice: bool,
-    /// All keys of every DashMap hash to shard 0 (maximal lock sharing).
-    pub dash_single_shard: bool,
-    /// Capacity to use for the access-count channel (the code's constant is 10) so that saturation is reachable.
-    pub access_channel_cap: Option<usize>,
-    /// Seeds handed to `FrequencyCounter::seeds` (cyclically).
-    pub sketch_seeds: [u64; 4],
-}
-
-impl Default for WorldCfg {
-    fn default() -> Self {
-        WorldCfg {
-            fair_rwlocks: false,
-            lifecycle_atomics_are_points: false,
-            id_atomics_are_points: true,
-            stats_atomics_are_points: false,
-            clock_is_point: false,
-            pool_index_is_choice: false,
-            iter_order_is_choice: false,
-            dash_single_shard: false,
-            access_channel_cap: None,
-            sketch_seeds: [0x9E37_79B9_7F4A_7C15, 0xC2B2_AE3D_27D4_EB4F, 0x1656_67B1_9E37_79F9, 0x27D4_EB2F_1656_67C5],
-        }
-    }
-}
+pub use crate::verif_rt::common::{Event, WorldCfg};
 
 pub struct World {
     pub cfg: WorldCfg,
